@@ -30,16 +30,21 @@ CONSTANTS
   WriterFollowsOwnSCS,  \* TRUE: the property's writer; FALSE: named deviation (writer keeps its old size)
   HsOrder,       \* "serial": the twelve handshake calls in the order of the library's example code, session afterwards;
                  \* "free": every interleaving of the two endpoints' calls and session writes the standard allows
-  HsReadExact    \* TRUE: a handshake read takes exactly its 1/1536 bytes; FALSE: named deviation "handshake-overread"
+  HsReadExact,   \* TRUE: a handshake read takes exactly its 1/1536 bytes; FALSE: named deviation "handshake-overread"
                  \* (it reads through a buffer of its own and takes whatever the transport holds)
+  ScsSids,       \* message stream ids a Set Chunk Size may travel on ("any message type ... any stream id")
+  ReaderScsAnySid,  \* TRUE: the reader follows every Set Chunk Size it reads, as the writer does; FALSE: named deviation
+                 \* "reader-ignores-scs-on-stream" (only the one on message stream 0 switches the reader)
+  LazyFlushTypes \* {}: when WriteMessage returns the message is in the transport; otherwise named deviation "lazy-flush":
+                 \* messages of these types stay in the writer's buffer until the next other message is written
 
 E == {"A", "B"}
 Peer(e) == IF e = "A" THEN "B" ELSE "A"
 M31 == 2147483647
 Min2(a, b) == IF a < b THEN a ELSE b
 
-VARIABLES hsw, hsr, put, took, rdoff, out, inn, wire, sent, got, desync, hist, sched
-vars == <<hsw, hsr, put, took, rdoff, out, inn, wire, sent, got, desync, hist, sched>>
+VARIABLES hsw, hsr, put, took, rdoff, out, inn, wire, held, sent, got, desync, hist, sched
+vars == <<hsw, hsr, put, took, rdoff, out, inn, wire, held, sent, got, desync, hist, sched>>
 
 \* --------------------------------------------------------------- bytes on the wire
 HdrBytes(ts, first) == IF first THEN (IF ts >= 16777215 THEN 16 ELSE 12) ELSE (IF ts >= 16777215 THEN 5 ELSE 1)
@@ -69,7 +74,8 @@ InOrder(e, k) == HsOrder = "free" \/ (HsCount < Len(SerialOrder) /\ SerialOrder[
 Init == /\ hsw = [e \in E |-> 0] /\ hsr = [e \in E |-> 0]
         /\ put = [e \in E |-> 0] /\ took = [e \in E |-> 0] /\ rdoff = [e \in E |-> 0]
         /\ out = [e \in E |-> 128] /\ inn = [e \in E |-> 128]
-        /\ wire = [e \in E |-> <<>>] /\ sent = [e \in E |-> <<>>] /\ got = [e \in E |-> <<>>]
+        /\ wire = [e \in E |-> <<>>] /\ held = [e \in E |-> <<>>]
+        /\ sent = [e \in E |-> <<>>] /\ got = [e \in E |-> <<>>]
         /\ desync = [e \in E |-> FALSE] /\ hist = <<>> /\ sched = <<>>
 
 \* one entry of the schedule: k = "W"/"R" a handshake write/read of n bytes, k = "m" the n-th session write (hist[n]);
@@ -83,7 +89,7 @@ HsWrite(e) ==
      /\ hsw' = [hsw EXCEPT ![e] = @ + 1]
      /\ put' = [put EXCEPT ![e] = @ + n]
      /\ sched' = Append(sched, Entry("W", e, n, put'[e]))
-  /\ UNCHANGED <<hsr, took, rdoff, out, inn, wire, sent, got, desync, hist>>
+  /\ UNCHANGED <<hsr, took, rdoff, out, inn, wire, held, sent, got, desync, hist>>
 
 \* ReadC0S0 / ReadC1S1 / ReadC2S2: returns once its n bytes are there (whatever else is behind them)
 HsRead(e) ==
@@ -94,27 +100,34 @@ HsRead(e) ==
      /\ hsr' = [hsr EXCEPT ![e] = @ + 1]
      /\ took' = [took EXCEPT ![e] = @ + (IF HsReadExact THEN n ELSE avail)]
      /\ sched' = Append(sched, Entry("R", e, n, took'[e]))
-  /\ UNCHANGED <<hsw, put, rdoff, out, inn, wire, sent, got, desync, hist>>
+  /\ UNCHANGED <<hsw, put, rdoff, out, inn, wire, held, sent, got, desync, hist>>
 
 \* ------------------------------------------------------------- messages
 LensFor(cs) == AbsLens \cup
   (IF RelLens /\ cs < 35000 THEN {x \in {cs - 1, cs, cs + 1, 2 * cs + 1} : x >= 1} ELSE {})
 
-\* protocol-control messages carry well-formed bodies: User Control (4) = event type + 4 bytes,
-\* Window Acknowledgement Size (5) = 4 bytes, Set Peer Bandwidth (6) = 4 + 1 bytes
-LensForShape(sh, cs) == CASE sh.type = 4 -> {6} [] sh.type = 5 -> {4} [] sh.type = 6 -> {5} [] OTHER -> LensFor(cs)
+\* protocol-control messages carry well-formed bodies: Abort (2) = chunk stream id, Acknowledgement (3) = sequence
+\* number, Window Acknowledgement Size (5) = window: 4 bytes; User Control (4) = event type + 4 bytes;
+\* Set Peer Bandwidth (6) = 4 + 1 bytes
+LensForShape(sh, cs) == CASE sh.type \in {2, 3, 5} -> {4} [] sh.type = 4 -> {6} [] sh.type = 6 -> {5} [] OTHER -> LensFor(cs)
 
-ScsMsg(cs, n) == [id |-> n, type |-> 1, sid |-> 0, ts |-> 0, len |-> 4, scs |-> cs]
+ScsMsg(cs, n, sid) == [id |-> n, type |-> 1, sid |-> sid, ts |-> 0, len |-> 4, scs |-> cs]
 DataMsg(sh, l, n) == [id |-> n, type |-> sh.type, sid |-> sh.sid, ts |-> sh.ts, len |-> l, scs |-> 0]
 
 NWrites == Len(sent["A"]) + Len(sent["B"])
 
 \* the library's writer: the whole message is cut with the current output chunk size;
-\* an outgoing Set Chunk Size switches the writer itself (the peer's reader will switch on reading it)
+\* an outgoing Set Chunk Size - on whatever message stream - switches the writer itself (the peer's reader will
+\* switch on reading it).  When the call returns, the message is in the transport (wire), together with anything
+\* the writer still held: the peer can read it although nothing is written behind it.
 Write(e, m) ==
   /\ HsDone(e) /\ (HsOrder = "serial" => HsDone(Peer(e)))   \* "any other data" only after the own handshake (5.2.1)
   /\ e \in Dirs /\ NWrites < MaxWrites
-  /\ wire' = [wire EXCEPT ![e] = Append(@, [m |-> m, cs |-> out[e]])]
+  /\ IF m.type \in LazyFlushTypes
+     THEN /\ held' = [held EXCEPT ![e] = Append(@, [m |-> m, cs |-> out[e]])]
+          /\ UNCHANGED wire
+     ELSE /\ wire' = [wire EXCEPT ![e] = @ \o held[e] \o <<[m |-> m, cs |-> out[e]]>>]
+          /\ held' = [held EXCEPT ![e] = <<>>]
   /\ put' = [put EXCEPT ![e] = @ + MsgBytes(m, out[e])]
   /\ sched' = Append(sched, Entry("m", e, Len(hist) + 1, put'[e]))
   /\ sent' = [sent EXCEPT ![e] = Append(@, m)]
@@ -134,17 +147,17 @@ Read(e) ==
   /\ LET r == Head(wire[p]) IN
      IF Aligned(e) /\ SameCut(r.m.len, r.cs, inn[e])
      THEN /\ got' = [got EXCEPT ![e] = Append(@, r.m)]
-          /\ inn' = [inn EXCEPT ![e] = IF r.m.type = 1 THEN r.m.scs ELSE @]
+          /\ inn' = [inn EXCEPT ![e] = IF r.m.type = 1 /\ (ReaderScsAnySid \/ r.m.sid = 0) THEN r.m.scs ELSE @]
           /\ took' = [took EXCEPT ![e] = @ + MsgBytes(r.m, r.cs)]
           /\ rdoff' = [rdoff EXCEPT ![e] = @ + MsgBytes(r.m, r.cs)]
           /\ UNCHANGED desync
      ELSE /\ desync' = [desync EXCEPT ![e] = TRUE]
           /\ UNCHANGED <<got, inn, took, rdoff>>
   /\ wire' = [wire EXCEPT ![p] = Tail(@)]
-  /\ UNCHANGED <<hsw, hsr, put, out, sent, hist, sched>>
+  /\ UNCHANGED <<hsw, hsr, put, out, held, sent, hist, sched>>
 
 Next == \/ \E e \in E : HsWrite(e) \/ HsRead(e)
-        \/ \E e \in Dirs, cs \in ChunkSizes : Write(e, ScsMsg(cs, NWrites + 1))
+        \/ \E e \in Dirs, cs \in ChunkSizes, sid \in ScsSids : Write(e, ScsMsg(cs, NWrites + 1, sid))
         \/ \E e \in Dirs, sh \in Shapes : \E l \in LensForShape(sh, out[e]) : Write(e, DataMsg(sh, l, NWrites + 1))
         \/ \E e \in E : Read(e)
 Spec == Init /\ [][Next]_vars
@@ -163,7 +176,10 @@ InFollowsOut == \A e \in E :
                            ELSE 128)
 \* the two directions do not interfere
 Independent == \A e \in E : (sent[e] = <<>> => inn[Peer(e)] = 128 /\ out[e] = 128)
+\* the transport is drained: the peer has read all it can read without anything further being written
 Quiescent == \A e \in E : wire[e] = <<>>
+\* a message is in the transport when the call that wrote it has returned - also the last one of a direction
+Flushed == \A e \in E : held[e] = <<>>
 AllDelivered == (Quiescent /\ NoDesync) => \A e \in E : got[e] = sent[Peer(e)]
 \* each handshake step consumes exactly its 1 / 1536 bytes: what an endpoint has taken out of the transport is
 \* its handshake reads plus the session messages it has read - never a byte of what follows
